@@ -15,8 +15,8 @@ All theorems: every `target > 0`, every column count `nc ≥ 1`, every finite we
 both ways of giving the column count (`numColumns = nc` explicit, `numColumns = 0` deduced).
 
 `C19_no_error`, `C19_conserve`, `C19_rect`, `C19_sizes`, `C19_count`, `C19_aligned`, `C19_rows`,
-`C19_online`, `C19_identity`, `C19_errors`; `C19_treefn` for the double re-batching of
-`TreeFn._iterate` (model `treeFn`).  Not stated as theorems (covered by the correspondence only):
+`C19_online`, `C19_identity`, `C19_errors`; `C19_treefn` / `C19_treefn_flatmap` for the double
+re-batching of `TreeFn._iterate` (model `treeFn`) around row-preserving / row-count-changing functions.  Not stated as theorems (covered by the correspondence only):
 the container kind of the emitted columns, and the `TypeError` branch for unsupported containers.
 Known finding F-C19-assign (`Assign` + `batch_size`) is outside `_iterate`: see `Witness/C19.lean`.
 -/
@@ -261,6 +261,49 @@ theorem C19_treefn {β : Type} [Inhabited α] [Inhabited β] {fb b nin : Nat} (h
     simp [padding]
   · rw [C19_count hb hnout (Or.inl rfl) none hwf2, htot2, htot]
 
+/-- `TreeFn._iterate` around a batch function that changes the number of rows (`flatMapRows g kinds`:
+every input row yields a list of output rows — a filter, an expansion, …; intermediate batches may
+be empty): with `batch_size = b > 0` and any `fn_batch_size = fb` (in particular `fb = b`) it never
+raises on a well-formed stream and emits, column by column, the flat-map of `g` over the input rows
+in order, regrouped into batches of exactly `b` rows (the last: `1..b`), `⌈N/b⌉` batches for `N`
+output rows — independently of the incoming batching and of `fb`. -/
+theorem C19_treefn_flatmap {β : Type} [Inhabited α] [Inhabited β] {fb b nin : Nat} (hb : 0 < b)
+    (hnin : 0 < nin) (g : List α → List (List β)) {kinds : List Kind}
+    (hk : ∀ k ∈ kinds, k ≠ .other) (hnout : 0 < kinds.length) {bs : List (Batch α)}
+    (hwf : WF nin bs) :
+    (treeFn fb b nin kinds.length (flatMapRows g kinds) bs).err = none ∧
+    (∀ c, c < kinds.length →
+      colConcat (treeFn fb b nin kinds.length (flatMapRows g kinds) bs).out c
+        = ((bs.flatMap rowsOf).flatMap g).map fun row => row.getD c default) ∧
+    WF kinds.length (treeFn fb b nin kinds.length (flatMapRows g kinds) bs).out ∧
+    (∀ j b', (treeFn fb b nin kinds.length (flatMapRows g kinds) bs).out[j]? = some b' →
+      j + 1 < (treeFn fb b nin kinds.length (flatMapRows g kinds) bs).out.length → nrows b' = b) ∧
+    (∀ b', (treeFn fb b nin kinds.length (flatMapRows g kinds) bs).out.getLast? = some b' →
+      1 ≤ nrows b' ∧ nrows b' ≤ b) ∧
+    (treeFn fb b nin kinds.length (flatMapRows g kinds) bs).out.length
+      = (((bs.flatMap rowsOf).flatMap g).length + b - 1) / b := by
+  have h1 : (run fb nin none bs).err = none ∧ WF nin (run fb nin none bs).out ∧
+      ∀ c, c < nin → colConcat (run fb nin none bs).out c = colConcat bs c := by
+    rcases Nat.eq_zero_or_pos fb with h | h
+    · subst h; rw [C19_identity]; exact ⟨rfl, hwf, fun _ _ => rfl⟩
+    · refine ⟨C19_no_error h hnin (Or.inl rfl) none hwf, C19_rect h hnin (Or.inl rfl) none hwf, ?_⟩
+      intro c hc
+      rw [C19_conserve h hnin (Or.inl rfl) none hwf hc]; simp [padding]
+  obtain ⟨herr, hwf1, hcons1⟩ := h1
+  have hrows : (run fb nin none bs).out.flatMap rowsOf = bs.flatMap rowsOf :=
+    flatMap_rowsOf_congr hnin hwf1 hwf hcons1
+  simp only [treeFn, herr]
+  generalize (run fb nin none bs).out = xs at *
+  have hwf2 := wf_flatMapRows g hk hnout xs
+  have htot2 := totalRows_flatMapRows g hk hnout xs
+  obtain ⟨s1, s2, _⟩ := C19_sizes hb hnout (Or.inl rfl) none hwf2
+  refine ⟨C19_no_error hb hnout (Or.inl rfl) none hwf2, ?_, C19_rect hb hnout (Or.inl rfl) none hwf2,
+    s1, fun b' h => ⟨(s2 b' h).1, (s2 b' h).2.1⟩, ?_⟩
+  · intro c hc
+    rw [C19_conserve hb hnout (Or.inl rfl) none hwf2 hc, colConcat_flatMapRows g xs hc, hrows]
+    simp [padding]
+  · rw [C19_count hb hnout (Or.inl rfl) none hwf2, htot2, hrows]
+
 /-! ## Non-vacuity and sanity tests (concrete instances, by `decide`; `+kernel` because `sliced`
 is defined by well-founded recursion) -/
 
@@ -294,6 +337,13 @@ example : online 2 0 none (sampleStream.take 1) =
 -- error branch
 example : run 2 0 none (sampleStream ++ [sampleRagged]) =
     ⟨online 2 0 none sampleStream, some .value⟩ := by decide +kernel
+-- TreeFn with a row-count-changing function and fn_batch_size = batch_size = 2: every row twice
+-- (the 6 input rows become 12, in 6 batches of exactly 2), and a filter whose intermediate
+-- batches are partly empty (rows with an even first component: 0, 2, 4 → batches [0,2], [4])
+example : (treeFn 2 2 2 2 (flatMapRows (fun r => [r, r]) [.list, .array]) sampleStream).out.map nrows
+    = [2, 2, 2, 2, 2, 2] := by decide +kernel
+example : treeFn 2 2 2 1 (flatMapRows (fun r => if r.headD 0 % 2 = 0 then [[r.headD 0]] else []) [.list])
+    sampleStream = ⟨[[⟨.list, [0, 2]⟩], [⟨.list, [4]⟩]], none⟩ := by decide +kernel
 -- TreeFn: fn_batch_size 4, batch_size 3, row-wise sum of the two columns
 example : treeFn 4 3 2 1 (mapRows sampleSum [.list]) sampleStream =
     ⟨[[⟨.list, [10, 12, 14]⟩], [⟨.list, [16, 18, 20]⟩]], none⟩ := by decide +kernel
